@@ -118,7 +118,11 @@ class AliasDict(Generic[KT, VT]):
         if isinstance(val, tuple):
             assert len(val) == 2
             if sign < 0:
-                self.__d[var] = (-val[1], -val[0])
+                # A missing (None) side stays missing
+                self.__d[var] = (
+                    -val[1] if val[1] is not None else None,
+                    -val[0] if val[0] is not None else None,
+                )
             else:
                 self.__d[var] = val
         elif isinstance(val, list) and sign < 0:
@@ -131,7 +135,11 @@ class AliasDict(Generic[KT, VT]):
         val = self.__d[var]
         if isinstance(val, tuple):
             if sign < 0:
-                return (-val[1], -val[0])
+                # A missing (None) side stays missing
+                return (
+                    -val[1] if val[1] is not None else None,
+                    -val[0] if val[0] is not None else None,
+                )
             else:
                 return val
         elif isinstance(val, list) and sign < 0:
